@@ -27,7 +27,7 @@ package zapcore
 // against an interface contract; the fields they mention are never stored to after publication
 // (obligation typeinv.stable).
 //@ typeinv *zapcore.sampler s: s != nil && s.Core != nil && s.counts != nil && s.hook != nil
-//@ typeinv *zapcore.ioCore c: c != nil && c.LevelEnabler != nil && c.enc != nil && c.out != nil
+//@ typeinv *zapcore.ioCore c: c != nil && c.LevelEnabler != nil && c.enc != nil && c.out != nil && encInv(c.enc)
 //@ typeinv *zapcore.hooked h: h != nil && h.Core != nil && (forall k int :: 0 <= k && k < len(h.funcs) ==> h.funcs[k] != nil)
 //@ typeinv zapcore.multiCore mc: forall k int :: 0 <= k && k < len(mc) ==> mc[k] != nil
 //@ typeinv *zapcore.levelFilterCore c: c != nil && c.level != nil && c.core != nil
@@ -623,11 +623,49 @@ package zapcore
 // Encoder.EncodeEntry hands a buffer it no longer references to the caller (or an error).
 // It writes only into buffers it took from the pool: no buffer and no byte that existed before changes.
 //@ iface zapcore.Encoder.EncodeEntry
-//@   modifies $user, comp(E:uint8), buffer.Buffer.bs
+//@   params ent fields
+//@   requires encInv(self)
+//@   requires forall i int :: 0 <= i && i < len(fields) ==> wfEnc(fields[i])
+//@   modifies $user, comp(E:uint8), buffer.Buffer.bs, fields(zapcore.jsonEncoder)
+//@   ensures type_frame(type(zapcore.jsonEncoder))
 //@   ensures type_frame(type(buffer.Buffer))
 //@   ensures elems_frame(type(uint8), zero(type([]uint8)))
 //@   ensures result.1 == nil ==> result.0 != nil && result.0.pool.p != nil
 //@   ensures result.1 != nil ==> result.0 == nil
+
+// Encoder.Clone: an encoder of its own with the same context; the receiver and everything that
+// existed before are untouched.
+//@ iface zapcore.Encoder.Clone
+//@   requires encInv(self)
+//@   modifies comp(E:uint8)
+//@   ensures result != nil && encInv(result) && elems_frame(type(uint8), zero(type([]uint8)))
+//@   ensures isJ(self) ==> isJ(result) && fresh(jenc(result)) && fresh(jenc(result).buf) && seq(jenc(result).buf.bs) == old(seq(jenc(self).buf.bs)) && jenc(result).openNamespaces == jenc(self).openNamespaces && (arr(jenc(result).buf.bs) == nil || fresh(jenc(result).buf.bs)) && jenc(result).reflectBuf == nil
+
+// ioCore.With (C07): the derived core owns a clone of the encoder to which exactly the new fields are
+// added; the receiver, its encoder and every byte that existed before are untouched.
+//@ func (*zapcore.ioCore).clone
+//@   props C07
+//@   flags nopanic
+//@   requires c != nil
+//@   modifies comp(E:uint8)
+//@   ensures fresh(result) && result.LevelEnabler == c.LevelEnabler && result.out == c.out && result.enc != nil && encInv(result.enc)
+//@   ensures elems_frame(type(uint8), zero(type([]uint8))) && *c == old(*c)
+//@   ensures isJ(c.enc) ==> isJ(result.enc) && fresh(jenc(result.enc)) && fresh(jenc(result.enc).buf) && seq(jenc(result.enc).buf.bs) == old(seq(jenc(c.enc).buf.bs)) && (arr(jenc(result.enc).buf.bs) == nil || fresh(jenc(result.enc).buf.bs)) && jenc(result.enc).reflectBuf == nil
+
+//@ func (*zapcore.ioCore).With
+//@   props C07
+//@   refines zapcore.Core.With
+//@   flags nopanic propagates-panics
+//@   requires c != nil
+//@   assumes forall i int :: 0 <= i && i < len(fields) ==> wfEnc(fields[i])
+//@   assumes isJ(c.enc)
+//@   track AF = call zapcore.addFields
+//@   modifies $user, comp(E:uint8), fields(zapcore.jsonEncoder), buffer.Buffer.bs
+//@   ensures typeof(result) == type(*ioCore) && fresh(as(result, type(*ioCore))) && as(result, type(*ioCore)).LevelEnabler == c.LevelEnabler && as(result, type(*ioCore)).out == c.out
+//@   ensures #AF == 1 && AF.arg0[0] == as(result, type(*ioCore)).enc && AF.arg1[0] == fields
+//@   ensures *c == old(*c)
+//@   ensures isJ(c.enc) ==> jenc(c.enc).buf == old(jenc(c.enc).buf) && jenc(c.enc).buf.bs == old(jenc(c.enc).buf.bs) && jenc(c.enc).openNamespaces == old(jenc(c.enc).openNamespaces)
+//@   ensures elems_frame(type(uint8), zero(type([]uint8)))
 
 //@ func (*zapcore.ioCore).Sync
 //@   props C06 C10
@@ -645,6 +683,7 @@ package zapcore
 //@   refines zapcore.Core.Write
 //@   flags nopanic
 //@   requires c != nil && c.enc != nil && c.out != nil
+//@   assumes forall i int :: 0 <= i && i < len(fields) ==> wfEnc(fields[i])
 //@   track ENC = invoke zapcore.Encoder.EncodeEntry
 //@   track WR = invoke zapcore.WriteSyncer.Write
 //@   track SY = call (*zapcore.ioCore).Sync
@@ -680,7 +719,7 @@ package zapcore
 //@ func zapcore.NewCore
 //@   props C19 C05
 //@   flags nopanic
-//@   requires enc != nil && ws != nil && enab != nil
+//@   requires enc != nil && ws != nil && enab != nil && encInv(enc)
 //@   modifies nothing
 //@   ensures typeof(result) == type(*ioCore) && fresh(as(result, type(*ioCore))) && as(result, type(*ioCore)).enc == enc && as(result, type(*ioCore)).out == ws && as(result, type(*ioCore)).LevelEnabler == enab
 
